@@ -8,11 +8,14 @@ Open Scope nat_scope.
 
 (* plain data as printed by the harness.  A tree is a table indexed by node id; a subproblem is its id; a solution is an id *)
 Inductive ptnode := TNo | TInf (cs : list nat) (s : Z) | TFeas (s : Z) | TPanic.
-Inductive pev := PAcq (i : nat) | PPopSolve (i n : nat) (ps : Z) | PPopBound (i n : nat) (ps : Z) | PExitYes (i : nat) | PExitNo (i : nat)
+Inductive pev (ND : Type) := PAcq (i : nat) | PPopSolve (i : nat) (n : ND) (ps : Z) | PPopBound (i : nat) (n : ND) (ps : Z) | PExitYes (i : nat) | PExitNo (i : nat)
   | PEmptyWait (i : nat) | PEmptyDone (i : nat) | PFinNo (i : nat) | PFinFeas (i : nat) (s : Z) (nb : bool)
-  | PFinInf (i : nat) (s : Z) (cs : list nat) | PFinPanic (i : nat) | PWake (i : nat).
+  | PFinInf (i : nat) (s : Z) (cs : list ND) | PFinPanic (i : nat) | PWake (i : nat).
+Arguments PAcq {ND} i. Arguments PPopSolve {ND} i n ps. Arguments PPopBound {ND} i n ps. Arguments PExitYes {ND} i. Arguments PExitNo {ND} i.
+Arguments PEmptyWait {ND} i. Arguments PEmptyDone {ND} i. Arguments PFinNo {ND} i. Arguments PFinFeas {ND} i s nb.
+Arguments PFinInf {ND} i s cs. Arguments PFinPanic {ND} i. Arguments PWake {ND} i.
 (* outcome: 0 = solve returned, 1 = deadlock reported by the scheduler, 2 = a panic propagated out of solve *)
-Definition tree_case := (list ptnode * nat * list pev * option (nat * Z) * bool * nat * list N)%type.
+Definition tree_case := (list ptnode * nat * list (pev nat) * option (nat * Z) * bool * nat * list N)%type.
 
 Definition smin : Z := 0.
 Definition smax : Z := 4294967295.
@@ -21,7 +24,7 @@ Definition tf (tab : list ptnode) (n : nat) : nres nat nat :=
   match nth n tab TNo with
   | TNo => NoSol nat nat | TInf cs s => Infeas nat nat cs s | TFeas s => Feas nat nat n s | TPanic => PanicR nat nat end.
 
-Definition to_ev (e : pev) : ev nat :=
+Definition to_ev (e : pev nat) : ev nat :=
   match e with
   | PAcq i => EAcq nat i | PPopSolve i n ps => EPopSolve nat i n ps | PPopBound i n ps => EPopBound nat i n ps
   | PExitYes i => EExitYes nat i | PExitNo i => EExitNo nat i | PEmptyWait i => EEmptyWait nat i | PEmptyDone i => EEmptyDone nat i
@@ -29,7 +32,7 @@ Definition to_ev (e : pev) : ev nat :=
   | PFinPanic i => EFinPanic nat i | PWake i => EWake nat i end.
 
 (* replay with the heap-order conformance of every pop *)
-Fixpoint replay_c (tab : list ptnode) (st : state nat nat) (evs : list pev) (pos : nat) (maxok : bool) : (state nat nat + nat) * bool :=
+Fixpoint replay_c (tab : list ptnode) (st : state nat nat) (evs : list (pev nat)) (pos : nat) (maxok : bool) : (state nat nat + nat) * bool :=
   match evs with
   | [] => (inl st, maxok)
   | e :: t =>
